@@ -293,7 +293,7 @@ def _example(pt: str, ct: str) -> str:
 # ---- (b) templates and helpers ------------------------------------------------------------------------------------------
 
 def rule_b(rep, idx, pm, tm) -> None:
-	r1 = rep.rule('C01/template-exists', 'every template name a Py2Cpp render call site can resolve to exists under data/cpp/template and parses', floor=150)
+	r1 = rep.rule('C01/template-exists', 'every template name a Py2Cpp render call site can resolve to exists under data/cpp/template and parses', floor=100)
 	sites = pm.render_sites()
 	referenced: set[str] = set()
 	for s in sites:
